@@ -27,16 +27,11 @@ Proof.
   intros. unfold spec_resolve, rip. rewrite skip_as_from, target_dir_as_from. reflexivity.
 Qed.
 
-Lemma k_underflow_as_from : forall fs cwd ab b i, k_underflow fs cwd ab b (as_from i) = k_underflow fs cwd ab b i.
-Proof. intros. reflexivity. Qed.
-
 Lemma cli_meets_spec : forall fs cwd ab b d i,
   k_nested (rl cwd ab b) d = false ->
   k_modonly fs d (as_from i) = false ->
-  k_underflow fs cwd ab b i = false ->
   option_map fst (cli_resolve fs cwd ab b i) = spec_resolve fs d i.
 Proof.
-  intros fs cwd ab b d i Hn Hm Hu. unfold k_nested in Hn. apply negb_false_iff in Hn. apply dir_eqb_eq in Hn. subst d.
-  rewrite spec_as_from, <- cli_resolve_as_from. apply cli_lsp_agree; [reflexivity | exact Hm |].
-  rewrite k_underflow_as_from. exact Hu.
+  intros fs cwd ab b d i Hn Hm. unfold k_nested in Hn. apply negb_false_iff in Hn. apply dir_eqb_eq in Hn. subst d.
+  rewrite spec_as_from, <- cli_resolve_as_from. apply cli_lsp_agree; [reflexivity | exact Hm].
 Qed.
